@@ -198,10 +198,11 @@ def correspondence(res, st, tier, work, extra_gen=()):
 # ------------------------------------------------------------------ trace parsing for the oracles
 
 class Step:
-    __slots__ = ("op", "res", "snap", "obs", "convs", "dconv", "raw_s", "raw_o", "gets", "all_o", "twin", "qtwin")
+    __slots__ = ("op", "raw_op", "res", "snap", "obs", "convs", "dconv", "raw_s", "raw_o", "gets", "all_o", "twin", "qtwin")
 
     def __init__(self, op):
         self.op = op.split()
+        self.raw_op = list(self.op)     # as written in the case file (replays); `op` may be normalised below
         self.res = None
         self.snap = None
         self.obs = None
@@ -279,7 +280,36 @@ def parse_cases(path):
                 step.twin = rest
             elif tag == "Q":
                 step.qtwin = rest
+    for c in cases:
+        normalise_c_keys(c)
     return cases
+
+
+def normalise_c_keys(case):
+    """capi cases: the key-entry C calls read as key steps, so that the key oracles of every property see them too.
+    `ckey code mods` (chewing_handle_Space ... Capslock: the named key, Shift for mods 1, the Caps Lock event for 4) and
+    `cdefault ch` for a printable ch (a character key carrying ch; Space for 32) become
+    `key code code uni shift ctrl caps num`, and the step's result is the KEY result (snapshot field last), not the C
+    return code.  Which key code a character has on the current keyboard is not reconstructed (999): the oracles use
+    the code of named keys only."""
+    remaps = False      # KB_DVORAK_HSU (7) is Dvorak-on-Qwerty: the character a key event carries is not the one passed in
+    for s in case["steps"]:
+        if not s.op or s.snap is None:
+            continue
+        if s.op[0] == "kbtype" and len(s.op) >= 2:
+            remaps = s.op[1] == "7"
+        if s.op[0] == "cdefault" and remaps:
+            continue
+        if s.op[0] == "ckey" and len(s.op) >= 3:
+            code, m = int(s.op[1]), int(s.op[2])
+            uni = 32 if code == 48 else 65533
+            s.op = ["key", str(code), str(code), str(uni), "1" if m == 1 else "0", "0", "1" if m == 4 else "0", "0"]
+            s.res = s.snap.get("last", s.res)
+        elif s.op[0] == "cdefault" and len(s.op) >= 2 and 32 <= int(s.op[1]) <= 126:
+            ch = int(s.op[1])
+            code = 48 if ch == 32 else 999
+            s.op = ["key", str(code), str(code), str(ch), "0", "0", "0", "0"]
+            s.res = s.snap.get("last", s.res)
 
 
 def lst(s):
@@ -288,7 +318,7 @@ def lst(s):
 
 def case_lines_upto(case, idx):
     """input lines of a case truncated after step idx (for replays)"""
-    return case["setup"] + ["OP " + " ".join(s.op) for s in case["steps"][:idx + 1]]
+    return case["setup"] + ["OP " + " ".join(s.raw_op) for s in case["steps"][:idx + 1]]
 
 
 # ------------------------------------------------------------------ generic check skeleton
